@@ -617,5 +617,10 @@ func (sm *SeatManager) Next() error {
 		return ErrInsufficientNumberOfPlayers
 	}
 
+	// Even after waiting players have been let in, a hand needs two players
+	if sm.getPlayableSeatCount() < 2 {
+		return ErrInsufficientNumberOfPlayers
+	}
+
 	return sm.renewSeatStatus()
 }
